@@ -260,6 +260,44 @@ def seed_gap(c, seeds):
         c.harness_error('all seeds give the same stream')
 
 
+def lineage_history(c, item):
+    """the same definition as a LineageModel, simulated as a single cell several times in a row with the starting cell given with no
+    state (it then starts from the Model's initial condition), as a list and as an array: every run of one seed gives the same rows,
+    and the Model's initial condition is what it was"""
+    from bioscrape.lineage import LineageModel, LineageCSimInterface, LineageSSASimulator, LineageVolumeCellState
+    import bioscrape.random as br
+    seed, forms = item
+    sh = Shadow()
+    c.count('states'); c.count('traces')
+    with warnings.catch_warnings():
+        warnings.simplefilter('ignore')
+        m = LineageModel(species=list(sh.species), reactions=[tuple(r) for r in sh.reactions] + [(['B'], ['A'], 'massaction', {'k': 0.4})], parameters=list(sh.params),
+                         initial_condition_dict=dict(sh.values))
+        iface = LineageCSimInterface(m)
+        iface.py_set_dt(0.25)
+        x0 = np.array(m.get_species_array(), dtype=float).copy()
+        runs = []
+        for form in forms:
+            v = (LineageVolumeCellState(v0=1.0, t0=0.0) if form == 'none' else
+                 LineageVolumeCellState(v0=1.0, t0=0.0, state=[float(z) for z in x0]) if form == 'list' else
+                 LineageVolumeCellState(v0=1.0, t0=0.0, state=x0.copy()))
+            br.py_seed_random(seed)
+            r = LineageSSASimulator().py_SimulateSingleCell(np.array(TIMES, dtype=float), Model=m, interface=iface, v=v)
+            runs.append(np.asarray(r.py_get_result()).tolist())
+            c.count('evaluations'); c.count('transitions')
+            now = np.array(m.get_species_array(), dtype=float)
+            if not np.array_equal(now, x0):
+                c.violation('C08/simulate-changed-model/lineage-single-cell', 'a single-cell run (starting cell given as %s) changed the model\'s initial condition: %s -> %s' % (
+                    form, x0.tolist(), now.tolist()), dict(lineage=[seed, list(forms)]))
+                return
+    if any(r_ != runs[0] for r_ in runs[1:]):
+        k_ = next(i for i, r_ in enumerate(runs) if r_ != runs[0])
+        c.violation('C08/not-repeatable/lineage-single-cell', 'run %d (cell given as %s) differs from the first run with the same seed: first rows %s vs %s' % (
+            k_, forms[k_], runs[k_][:2], runs[0][:2]), dict(lineage=[seed, list(forms)]))
+        return
+    c.nontrivial(('lineage', seed, tuple(forms)))
+
+
 def check(c, hist):
     from .c17 import diff
     c.count('states'); c.count('traces'); c.count('evaluations'); c.count('transitions', len(hist))
@@ -316,6 +354,8 @@ def run(ctx):
         hists += list(itertools.product(deep, repeat=4)) + list(itertools.product(deep[1:5], repeat=5)) + list(itertools.product(['rule_dt', 'init', 'sim_det'], repeat=6))
     seeds = [1, 2, 1234, 2 ** 31 - 1, 2 ** 31, 2 ** 32 - 1, 2 ** 32, 2 ** 32 + 5, 3 * 2 ** 32, 2 ** 40, 2 ** 53 + 1, 2 ** 63, 2 ** 64 - 1]
     pmap(seed_gap, [seeds[:7], seeds[7:]], ctx, nshards=2)
+    lin_items = [(sd, forms) for sd in (11, 4242) for forms in itertools.permutations(('none', 'list', 'array', 'none'), 3)]
+    pmap(lineage_history, lin_items, ctx, nshards=8)
     pmap(check, hists, ctx, nshards=512)
     ctx.bounds = dict(history_length=L, alphabet=OPS, histories=len(hists))
     ctx.rule = ('E3: every operation sequence up to the length bound over {add species; add a mass-action / proportional-Hill (named parameters) / '
@@ -331,6 +371,8 @@ def run(ctx):
 
 
 def replay(ctx, case):
+    if case.get('lineage'):
+        return lineage_history(ctx, (case['lineage'][0], tuple(case['lineage'][1])))
     if case.get('seed_gap'):
         return seed_gap(ctx, case['seeds'])
     check(ctx, tuple(case['history']))
